@@ -228,6 +228,11 @@ def c_eqhash(cex, obs):
             if not o['clone_eq']: return True, '%s build: a clone is not equal to its original' % prof
             if o['hash_clone'] != o['hash_a']: return True, '%s build: a clone hashes differently from its original' % prof
             if o['source_clone'] != o['source_b']: return True, '%s build: clone(a).source() %r differs from b.source() %r' % (prof, o['source_clone'], o['source_b'])
+            if 'obs_a' in o:
+                from lib import oracles
+                for k in ('source', 'size', 'map1', 'c1f0'):
+                    if not oracles.same_obs(k, o['obs_a'], o['obs_b']):
+                        return True, '%s build: a == b, yet %s answers differently on a (after history %r) and on b' % (prof, k, cex.get('history'))
         else:
             if o['ab'] or o['ba']: return True, '%s build: the two values compare equal although they are one edit apart' % prof
             if o['hash_a'] == o['hash_b']: return True, '%s build: the two values have the same hash %s although they are one edit apart' % (prof, o['hash_a'])
